@@ -65,7 +65,7 @@ def main():
         code, out, _ = sh("git -C %s apply %s" % (tree, os.path.abspath(options.patch)))
         if code:
             sys.exit("patch does not apply: %s" % out)
-        env = {"PYTHONPATH": tree + "/src"}
+        env = {"PYTHONPATH": tree + "/src", "COBALD_SRC": tree + "/src"}
         code, out, wall = sh("/venv/bin/python -m pytest -q -p no:cacheprovider --timeout=900 2>&1 | tail -3",
                              env=env, cwd=tree)
         summary = out.strip().splitlines()[-1] if out.strip() else ""
@@ -76,7 +76,8 @@ def main():
         code_with, out_with, _ = sh("/venv/bin/python %s" % os.path.abspath(options.demo),
                                     env=env, cwd=tree, timeout=600)
         code_without, out_without, _ = sh("/venv/bin/python %s" % os.path.abspath(options.demo),
-                                          env={"PYTHONPATH": REPO + "/src"}, cwd=REPO,
+                                          env={"PYTHONPATH": REPO + "/src",
+                                               "COBALD_SRC": REPO + "/src"}, cwd=REPO,
                                           timeout=600)
         meta["demo_with_change_exit"] = code_with
         meta["demo_without_change_exit"] = code_without
